@@ -4,7 +4,7 @@ from vf.xh import assume
 
 TARGETS = ['pytezos.rpc.search.find_state_change_intervals', 'pytezos.rpc.search.find_state_change',
            'pytezos.rpc.search.walk_state_change_interval', 'pytezos.rpc.search.find_state_changes']
-STUBS = ['get(level) -> number of change points <= level (a value that never returns to an earlier value)',
+STUBS = ['get(level) -> number of change points <= level (a value that never returns to an earlier value); in the equals-coarser-than-== obligations a pair (that number, level) compared by its first component',
          'logger.debug -> no-op *after* its arguments have been evaluated (a raising format expression stays visible)']
 BOUNDS = {'quick': 'range length head-last <= 24, step 1..8, <= 2 change points, last symbolic in 0..5',
           'thorough': 'range length head-last <= 120, step 1..60, <= 3 change points'}
@@ -13,13 +13,14 @@ OUTSIDE = ['ranges longer than the bound', 'histories in which the value returns
 ASSUMPTIONS = ['change points lie in (last, head]; the value at `last` is the start value']
 
 
-def _mk_get(cs):
+def _mk_get(cs, snap=False):
     def get(level):
         n = 0
         for c in cs:
             if c <= level:
                 n += 1
-        return n
+        # snapshot mode: the observed value also carries a field that differs at every level and that `equals` ignores
+        return (n, level) if snap else n
 
     return get
 
@@ -28,9 +29,15 @@ def eq(a, b):
     return a == b
 
 
-def run_changes(head, last, cs, step):
+def eq_snap(a, b):
+    return a[0] == b[0]
+
+
+def run_changes(head, last, cs, step, snap=False):
     from pytezos.rpc import search as S
 
+    if snap:
+        return [(lvl, v[0]) for lvl, v in S.find_state_changes(head, last, _mk_get(cs, True), eq_snap, step)]
     return list(S.find_state_changes(head, last, _mk_get(cs), eq, step))
 
 
@@ -59,22 +66,22 @@ def _pre(P, last, length, step, cs):
 
 def sym_changes1(P, last: int, length: int, step: int, c1: int) -> bool:
     head = _pre(P, last, length, step, [c1])
-    return run_changes(head, last, [c1], step) == [(c1, 1)]
+    return run_changes(head, last, [c1], step, P.get('snap', False)) == [(c1, 1)]
 
 
 def sym_changes2(P, last: int, length: int, step: int, c1: int, c2: int) -> bool:
     head = _pre(P, last, length, step, [c1, c2])
-    return run_changes(head, last, [c1, c2], step) == [(c1, 1), (c2, 2)]
+    return run_changes(head, last, [c1, c2], step, P.get('snap', False)) == [(c1, 1), (c2, 2)]
 
 
 def sym_changes3(P, last: int, length: int, step: int, c1: int, c2: int, c3: int) -> bool:
     head = _pre(P, last, length, step, [c1, c2, c3])
-    return run_changes(head, last, [c1, c2, c3], step) == [(c1, 1), (c2, 2), (c3, 3)]
+    return run_changes(head, last, [c1, c2, c3], step, P.get('snap', False)) == [(c1, 1), (c2, 2), (c3, 3)]
 
 
 def sym_changes0(P, last: int, length: int, step: int) -> bool:
     head = _pre(P, last, length, step, [])
-    return run_changes(head, last, [], step) == []
+    return run_changes(head, last, [], step, P.get('snap', False)) == []
 
 
 def sym_single(P, last: int, length: int, c1: int, c2: int) -> bool:
@@ -97,7 +104,7 @@ def concrete_changes(P, w):
     cs = _cs(w, k)
     exp = [(c, i + 1) for i, c in enumerate(cs)]
     try:
-        got = run_changes(last + length, last, cs, step)
+        got = run_changes(last + length, last, cs, step, P.get('snap', False))
     except Exception as e:  # noqa
         return {'ok': False, 'observed': f'raises {type(e).__name__}: {e}', 'expected': exp}
     return {'ok': got == exp, 'observed': got, 'expected': exp}
@@ -125,6 +132,13 @@ def obligations(tier):
            timeout=t, bounds=f'no change; head-last <= {24 if q else 120}; step <= {8 if q else 60}', targets=TARGETS),
     ]
     syms = {1: sym_changes1, 2: sym_changes2, 3: sym_changes3}
+    # caller-supplied `equals` coarser than ==: values are (state, level) snapshots compared by their state only
+    for k, maxlen, steps in ([(1, 12, (1, 2, 3, 5)), (2, 8, (1, 2, 3, 5))] if q else [(1, 40, range(1, 13)), (2, 20, range(1, 9))]):
+        for step in steps:
+            obs.append(Ob(f'changes/equals-coarser-than-==/k={k}/step={step}', 'xh', syms[k], concrete_changes,
+                          {'maxlen': maxlen, 'step': step, 'k': k, 'snap': True}, timeout=t,
+                          bounds=f'{k} change point(s) anywhere in (last, head]; head-last <= {maxlen}; step = {step}; values carry a per-level field ignored by equals',
+                          targets=TARGETS))
     # (k, max range length, steps)
     plan = [(1, 24, range(1, 9)), (2, 12, range(1, 9))] if q else \
            [(1, 120, list(range(1, 13)) + [20, 30, 60]), (2, 40, list(range(1, 13)) + [20, 30]), (3, 16, range(1, 9))]
